@@ -489,15 +489,24 @@ theorem delimSearch_spec {o : Bool} {b c tail buf rest : Bytes} (hno : NoLB (mar
     (hfree : Free (marker b) c)
     (htail : TailOK tail) (h : buf ++ rest = c ++ 13 :: 10 :: (marker b ++ tail)) :
     (delimSearch o (marker b) buf = none ∧ holdBack (marker b) buf ≤ c.length ∧
-      holdBack (marker b) buf ≤ buf.length) ∨
+      holdBack (marker b) buf ≤ buf.length ∧ rest ≠ []) ∨
     (∃ t1 n f, buf = c ++ 13 :: 10 :: (marker b ++ t1) ∧ t1 ++ rest = tail ∧ afterMarker t1 = some (n, f) ∧
       delimSearch o (marker b) buf = some (c.length, c.length + (2 + (marker b).length + n), f)) := by
   have hmk : marker b ≠ [] := by simp [marker]
   have hle := holdBack_le (marker b) buf
-  rcases List.append_eq_append_iff.mp h with ⟨a', hc, _⟩ | ⟨D1, hbuf, hX⟩
+  have htail2 : ∀ t, t ++ rest = tail → (t = [] ∨ t = [45]) → rest ≠ [] := by
+    intro t ht hcase hr
+    subst hr
+    have hlen : 2 ≤ tail.length := by
+      rcases htail with ⟨R, hR⟩ | ⟨epi, hR⟩ <;> rw [hR] <;> simp
+    have ht1 : t.length ≤ 1 := by rcases hcase with rfl | rfl <;> simp
+    have := congrArg List.length ht
+    simp only [List.append_nil] at this
+    omega
+  rcases List.append_eq_append_iff.mp h with ⟨a', hc, hrest⟩ | ⟨D1, hbuf, hX⟩
   · -- the buffer ends inside the content
     left
-    refine ⟨?_, ?_, hle⟩
+    refine ⟨?_, ?_, hle, by rw [hrest]; simp⟩
     · apply delimSearch_none_of_forall
       intro A1 A2 hA hne
       have hfb : Free (marker b) buf := hfree.of_infix (by rw [hc]; exact (List.prefix_append buf a').isInfix)
@@ -521,7 +530,7 @@ theorem delimSearch_spec {o : Bool} {b c tail buf rest : Bytes} (hno : NoLB (mar
       intro A1 A2 hA hne
       exact matchDelimAt_none_in_content hfree hno hmk A1 A2 D1 hA hne hD1
     have hX' : (13 :: 10 :: marker b) ++ tail = D1 ++ rest := by simpa using hX
-    rcases List.append_eq_append_iff.mp hX' with ⟨t1, hD, ht⟩ | ⟨u, hreg, _⟩
+    rcases List.append_eq_append_iff.mp hX' with ⟨t1, hD, ht⟩ | ⟨u, hreg, hrest⟩
     · -- the whole `CRLF --boundary` is there
       have hD' : D1 = 13 :: 10 :: (marker b ++ t1) := by simpa using hD
       have hnone := fun hn => afterMarker_none_prefix (rest := rest) ht.symm htail hn
@@ -530,7 +539,7 @@ theorem delimSearch_spec {o : Bool} {b c tail buf rest : Bytes} (hno : NoLB (mar
       | none =>
         left
         rw [ham] at hfull
-        refine ⟨?_, ?_, hle⟩
+        refine ⟨?_, ?_, hle, htail2 t1 ht.symm (hnone ham)⟩
         · rw [hshift, hD', hfull]; rfl
         · rw [hbuf, hD']
           have hnolb : ∀ y ∈ marker b ++ t1, isLB y = false := by
@@ -562,7 +571,7 @@ theorem delimSearch_spec {o : Bool} {b c tail buf rest : Bytes} (hno : NoLB (mar
         have hD' : D1 = 13 :: 10 :: (marker b ++ []) := by simpa using hreg.symm
         have hfull := delimSearch_region_full (o := o) (mk := marker b) (t1 := []) hmk hno (fun _ => Or.inl rfl)
         rw [afterMarker_nil] at hfull
-        refine ⟨?_, ?_, hle⟩
+        refine ⟨?_, ?_, hle, htail2 [] (by simpa using hrest) (Or.inl rfl)⟩
         · rw [hshift, hD', hfull]; rfl
         · rw [hbuf, hD']
           have hnolb : ∀ y ∈ marker b ++ [], isLB y = false := by
@@ -570,7 +579,7 @@ theorem delimSearch_spec {o : Bool} {b c tail buf rest : Bytes} (hno : NoLB (mar
           rw [holdBack_partial_crlf hnolb (maybeDelim_prefix (u := []) (by simp))]
           exact Nat.le_refl _
       · have hshort := delimSearch_region_short (o := o) hmk hu hreg.symm
-        refine ⟨?_, ?_, hle⟩
+        refine ⟨?_, ?_, hle, by rw [hrest]; simp [hu]⟩
         · rw [hshift, hshort]; rfl
         · rw [hbuf]
           match D1, hreg with
@@ -592,12 +601,13 @@ theorem delimSearch_spec {o : Bool} {b c tail buf rest : Bytes} (hno : NoLB (mar
 /-- the DATA branch's guarded search -/
 theorem dataSearch_spec {b c tail buf rest : Bytes} (hno : NoLB (marker b)) (hfree : Free (marker b) c)
     (htail : TailOK tail) (h : buf ++ rest = c ++ 13 :: 10 :: (marker b ++ tail)) :
-    (dataSearch b buf = none ∧ holdBack (marker b) buf ≤ c.length ∧ holdBack (marker b) buf ≤ buf.length) ∨
+    (dataSearch b buf = none ∧ holdBack (marker b) buf ≤ c.length ∧ holdBack (marker b) buf ≤ buf.length ∧
+      rest ≠ []) ∨
     (∃ t1 n f, buf = c ++ 13 :: 10 :: (marker b ++ t1) ∧ t1 ++ rest = tail ∧ afterMarker t1 = some (n, f) ∧
       dataSearch b buf = some (c.length, c.length + (2 + (marker b).length + n), f)) := by
-  rcases delimSearch_spec (o := false) hno hfree htail h with ⟨h1, h2, h3⟩ | ⟨t1, n, f, hb, ht, ham, hds⟩
+  rcases delimSearch_spec (o := false) hno hfree htail h with ⟨h1, h2, h3, h4⟩ | ⟨t1, n, f, hb, ht, ham, hds⟩
   · left
-    refine ⟨?_, h2, h3⟩
+    refine ⟨?_, h2, h3, h4⟩
     unfold dataSearch; split <;> simp [h1]
   · right
     refine ⟨t1, n, f, hb, ht, ham, ?_⟩
@@ -638,19 +648,36 @@ theorem delimSearch_marker_head {mk t1 : Bytes} (hmk : mk ≠ []) (hno : NoLB mk
 
 theorem preSearch_empty_spec {b tail buf rest : Bytes} (hno : NoLB (marker b)) (htail : TailOK tail)
     (h : buf ++ rest = marker b ++ tail) :
-    delimSearch true (marker b) buf = none ∨
+    (delimSearch true (marker b) buf = none ∧ rest ≠ []) ∨
     ∃ t1 n f, buf = marker b ++ t1 ∧ t1 ++ rest = tail ∧ afterMarker t1 = some (n, f) ∧
       delimSearch true (marker b) buf = some (0, (marker b).length + n, f) := by
   have hmk : marker b ≠ [] := by simp [marker]
-  rcases List.append_eq_append_iff.mp h with ⟨a', hm, _⟩ | ⟨t1, hb, ht⟩
+  have htail2 : ∀ t, t ++ rest = tail → (t = [] ∨ t = [45]) → rest ≠ [] := by
+    intro t ht hcase hr
+    subst hr
+    have hlen : 2 ≤ tail.length := by
+      rcases htail with ⟨R, hR⟩ | ⟨epi, hR⟩ <;> rw [hR] <;> simp
+    have ht1 : t.length ≤ 1 := by rcases hcase with rfl | rfl <;> simp
+    have := congrArg List.length ht
+    simp only [List.append_nil] at this
+    omega
+  rcases List.append_eq_append_iff.mp h with ⟨a', hm, hrest⟩ | ⟨t1, hb, ht⟩
   · -- only part of the marker (or exactly the marker) is there
     left
-    apply delimSearch_none_of_short
-    rw [hm]; simp
+    refine ⟨?_, ?_⟩
+    · apply delimSearch_none_of_short
+      rw [hm]; simp
+    · rw [hrest]
+      intro he
+      have : tail = [] := by
+        cases a' <;> simp at he
+        exact he
+      subst this
+      rcases htail with ⟨R, hR⟩ | ⟨epi, hR⟩ <;> cases hR
   · have hnone := fun hn => afterMarker_none_prefix (rest := rest) ht.symm htail hn
     have hhead := delimSearch_marker_head (t1 := t1) hmk hno hnone
     cases ham : afterMarker t1 with
-    | none => left; rw [hb, hhead, ham]; rfl
+    | none => left; exact ⟨by rw [hb, hhead, ham]; rfl, htail2 t1 ht.symm (hnone ham)⟩
     | some r =>
       obtain ⟨n, f⟩ := r
       right
@@ -806,7 +833,7 @@ its bytes are in the buffer, and exactly at the end of the block (a stray LF
 left over from the delimiter's CRLF may sit in front). -/
 theorem blankLineSearch_spec {slack H R buf rest : Bytes} (hs : slack = [] ∨ slack = [10]) (hH : HdrOK H)
     (h : buf ++ rest = slack ++ H ++ 13 :: 10 :: 13 :: 10 :: R) :
-    blankLineSearch buf = none ∨
+    (blankLineSearch buf = none ∧ rest ≠ []) ∨
     ∃ r1, buf = slack ++ H ++ 13 :: 10 :: 13 :: 10 :: r1 ∧ r1 ++ rest = R ∧
       blankLineSearch buf = some ((slack ++ H).length, (slack ++ H).length + 4) := by
   obtain ⟨⟨x, hr, hHx, hx, _, _⟩, ⟨r, z, hHz, hz⟩, hblank⟩ := hH
@@ -849,9 +876,10 @@ theorem blankLineSearch_spec {slack H R buf rest : Bytes} (hs : slack = [] ∨ s
       apply blankAt_append_of_last hz
       rw [← hr']
       exact hblank B1 A2 hB
-  rcases List.append_eq_append_iff.mp h with ⟨a', hc, _⟩ | ⟨D1, hbuf, hX⟩
+  rcases List.append_eq_append_iff.mp h with ⟨a', hc, hrest⟩ | ⟨D1, hbuf, hX⟩
   · -- the buffer ends inside the header block
     left
+    refine ⟨?_, by rw [hrest]; simp⟩
     apply blankLineSearch_none_of_short
     intro A1 A2 hA
     by_cases hne : A2 = []
@@ -864,7 +892,7 @@ theorem blankLineSearch_spec {slack H R buf rest : Bytes} (hs : slack = [] ∨ s
       rw [hbuf]
       exact blankLineSearch_append_left (slack ++ H) D1 (hinside D1)
     have hX' : [13, 10, 13, 10] ++ R = D1 ++ rest := by simpa using hX
-    rcases List.append_eq_append_iff.mp hX' with ⟨r1, hD, hr⟩ | ⟨u, hreg, _⟩
+    rcases List.append_eq_append_iff.mp hX' with ⟨r1, hD, hr⟩ | ⟨u, hreg, hrest⟩
     · right
       have hD' : D1 = 13 :: 10 :: 13 :: 10 :: r1 := by simpa using hD
       refine ⟨r1, by rw [hbuf, hD'], hr.symm, ?_⟩
@@ -885,6 +913,7 @@ theorem blankLineSearch_spec {slack H R buf rest : Bytes} (hs : slack = [] ∨ s
             rw [blankLineSearch]; simp [blankAt]
           rw [this]; simp; omega
       · left
+        refine ⟨?_, by rw [hrest]; simp [hu]⟩
         rw [hshift]
         have : blankLineSearch D1 = none := by
           have hlen : D1.length < 4 := by
